@@ -8,7 +8,10 @@ Specification side of property C09, written from the property text (not from the
     its variables (non-empty, slash-free, taken from the variable's `enum` when it has one), is a prefix of the
     request URL (relative server: of the request path) that ends at a segment boundary; what follows is the
     path the templates are matched against; a document without servers is matched on the whole path;
-  * candidates = (template, binding) pairs that match under some declared server;
+  * the servers of a path item are its own `servers` when it declares some, otherwise the document's;
+  * candidates = (template, binding, server) triples: the template matches what remains of the request after that
+    server, which is one of the servers of the template's path item; a returned route must name the template, the
+    binding and *that server* (`Route.Server`), so that "server base path + filled template" is the request path;
       - no candidate                       → a not-found error is required;
       - a literal candidate declaring the method → that literal route is required ("a literal path wins");
       - otherwise some candidate declaring the method → one of those routes is required ("is routed");
@@ -102,18 +105,30 @@ structure Cand where
   template : Str
   params   : List (Str × Str)
   declares : Bool
+  server   : SrvRef
   deriving DecidableEq, Repr
 
-def candsFor (method rem : Str) (pd : PathDecl) : List Cand :=
+/-- candidates of one path item for one remaining path, found under the server `ref` -/
+def candsFor (method rem : Str) (ref : SrvRef) (pd : PathDecl) : List Cand :=
   let toks := sparseS pd.template
   (smatchP toks rem).filterMap (fun br =>
-    if br.2 = [] then some ⟨pd.template, (svarNames toks).zip br.1, pd.methods.contains method⟩ else none)
+    if br.2 = [] then some ⟨pd.template, (svarNames toks).zip br.1, pd.methods.contains method, ref⟩ else none)
 
-def specRems (enforceEnum : Bool) (d : Doc) (r : Req) : List Str :=
-  if d.servers = [] then [r.path] else d.servers.flatMap (fun s => specServerRems enforceEnum s r)
+def tagFrom (mk : Nat → SrvRef) : Nat → List Server → List (SrvRef × Server)
+  | _, [] => []
+  | i, s :: rest => (mk i, s) :: tagFrom mk (i + 1) rest
+
+/-- the servers that apply to a path item: its own `servers` when it declares some, otherwise the document's -/
+def effServers (d : Doc) (pd : PathDecl) : List (SrvRef × Server) :=
+  if pd.servers = [] then tagFrom SrvRef.doc 0 d.servers else tagFrom (SrvRef.path pd.template) 0 pd.servers
+
+def specCandsPath (enforceEnum : Bool) (d : Doc) (r : Req) (pd : PathDecl) : List Cand :=
+  match effServers d pd with
+  | [] => candsFor r.method r.path SrvRef.none pd
+  | ss => ss.flatMap (fun rs => (specServerRems enforceEnum rs.2 r).flatMap (fun rem => candsFor r.method rem rs.1 pd))
 
 def specCands (enforceEnum : Bool) (d : Doc) (r : Req) : List Cand :=
-  (specRems enforceEnum d r).flatMap (fun rem => d.paths.flatMap (candsFor r.method rem))
+  d.paths.flatMap (specCandsPath enforceEnum d r)
 
 inductive Must | route | notFound | error
   deriving DecidableEq, Repr
@@ -137,8 +152,13 @@ def specAccepts (d : Doc) (r : Req) (o : Outcome) : Bool :=
   | (.notFound, _), .notFound => true
   | (.error, _), .notFound => true
   | (.error, _), .methodNotAllowed => true
-  | (.route, cs), .route t m ps => m = r.method && cs.any (fun c => c.template = t && paramsAgree c.params ps)
+  | (.route, cs), .route t m ps sv =>
+    m = r.method && cs.any (fun c => c.template = t && paramsAgree c.params ps && c.server = sv)
   | _, _ => false
+
+/-- percent-encoded requests: "the request path" of the property is read either way — escaped (values are escaped strings)
+    or decoded — and an outcome is accepted when it satisfies the property under one of the two readings -/
+def specAcceptsW (d : Doc) (w : Wire) (o : Outcome) : Bool := specAccepts d w.raw o || specAccepts d w.req o
 
 /-! ## exclusion predicates (known-finding classes) -/
 
@@ -153,7 +173,7 @@ def exclLegacy14 (k : RouterKind) (d : Doc) (r : Req) : Bool :=
   k = .legacy &&
   match legacyServer d r with
   | none => false
-  | some (sp, rem) =>
+  | some (_, sp, rem) =>
     sp.any (·.2 = []) ||
     (d.servers ≠ [] && rem = ['/'] && (rawURL r).getLast? ≠ some '/') ||
     (match legacyMatch d r.method rem with
@@ -189,5 +209,28 @@ def exclLegacyURLForm (k : RouterKind) (d : Doc) (r : Req) : Bool :=
 def exclLegacyFirstServer (k : RouterKind) (d : Doc) (r : Req) : Bool :=
   k = .legacy &&
   (d.servers.filter (fun s => (matchRawURL (s.url.length + 1) s.url (rawURL r) []).isSome)).length > 1
+
+/-- legacy router: the returned `Route` is the one stored by NewRouter, whose `Server` is nil even when the request was
+    matched through a declared server (gorillamux sets it) -/
+def exclLegacyNoRouteServer (k : RouterKind) (d : Doc) (r : Req) : Bool :=
+  k = .legacy && legacyFind d r ≠ legacyFindFixed d r
+
+def dropPathServers (d : Doc) : Doc := ⟨d.paths.map (fun p => ⟨p.template, p.methods, []⟩), d.servers⟩
+
+/-- legacy router: path-item level `servers` are ignored (the document's servers are used for every path) -/
+def exclLegacyPathServers (k : RouterKind) (d : Doc) (r : Req) : Bool :=
+  k = .legacy &&
+  (specOutcome true d r ≠ specOutcome true (dropPathServers d) r ||
+   specOutcome false d r ≠ specOutcome false (dropPathServers d) r)   -- (the router does not consult enums either, #33)
+
+/-- legacy router: two declared keys share a trie node (`/a` and `/a/` with a common method); which of the two
+    operations the node holds depends on the iteration order of a Go map -/
+def exclLegacyKeyCollision (k : RouterKind) (d : Doc) : Bool :=
+  k = .legacy && keyCollision (docKeys d)
+
+/-- gorillamux: the servers of a path item stay in force for the path items after it (in matching order) that declare
+    none; stated on the request: the router as it is and the router after the repair answer differently -/
+def exclGorillaPathServersLeak (k : RouterKind) (d : Doc) (r : Req) : Bool :=
+  k = .gorilla && gorillaFind d r ≠ gorillaFindFixed d r
 
 end KinModel.Router
